@@ -60,11 +60,20 @@ def empty_set(arity=1, kind="set"):
     return VSet(_false, arity=arity, kind=kind)
 
 
+class VUPair(V):
+    """frozenset({a, b}) of two nodes: an unordered pair (a = b gives a singleton)"""
+    def __init__(self, a, b):
+        self.a, self.b = a, b
+
+
 def set_of_items(ex, items):
     L = ex.L
     if all(isinstance(i, VNode) for i in items):
         ts = [i.t for i in items]
-        return VSet(lambda x: L.Or(*[x == t for t in ts]))
+        s_ = VSet(lambda x: L.Or(*[x == t for t in ts]))
+        if len(ts) == 2:
+            s_.two_items = (ts[0], ts[1])
+        return s_
     if items and all(isinstance(i, VTuple) and all(isinstance(j, VNode) for j in i.items) for i in items):
         ar = len(items[0].items)
         tss = [[j.t for j in i.items] for i in items]
@@ -87,11 +96,17 @@ def nx_edges_view(ex, g: VNx):
     if g.directed:
         return VSet(lambda a, b: g.E(a, b), arity=2, kind="list", owned=False)
     E = g.curE
+    # the iteration order of an unmodified graph is the same on every call: one orientation per graph state
+    cache = ex.__dict__.setdefault("_ori_cache", {})
+    key = (id(E), tuple(b.get_id() for b in ex.binders))
+    if key in cache:
+        return VSet(cache[key][1], arity=2, kind="list", owned=False)
     ori = param_pred(ex, "ori", 2, [
         lambda o: L.forall(2, lambda a, b: L.Implies(o(a, b), E(a, b))),
         lambda o: L.forall(2, lambda a, b: L.Implies(E(a, b), L.Or(o(a, b), o(b, a)))),
         lambda o: L.forall(2, lambda a, b: L.Implies(L.And(o(a, b), o(b, a)), a == b)),
     ])
+    cache[key] = (E, lambda a, b: ori(a, b))      # E is kept alive so that its id is not reused
     return VSet(lambda a, b: ori(a, b), arity=2, kind="list", owned=False)
 
 
@@ -304,6 +319,15 @@ def get_slice(ex, base, lo, hi):
 # ------------------------------------------------------------------------------------------------ operators
 def aug_assign(ex, cur, op, rhs):
     L = ex.L
+    if isinstance(cur, VSet) and isinstance(op, ast.Add) and cur.kind == "list":
+        check_owned(ex, cur, "+=")
+        r = ex.as_set(rhs)
+        if r.arity != cur.arity and getattr(cur, "known_empty", False):
+            cur.arity = r.arity
+        cur.add_pred(lambda *xs: r.has(*xs))
+        cur.known_empty = False
+        cur.seq_view = None
+        return None
     if isinstance(cur, VSet) and isinstance(op, ast.BitOr):
         check_owned(ex, cur, "|=")
         r = ex.as_set(rhs)
@@ -666,6 +690,11 @@ def call_builtin(ex, name, args, kwargs):
         c = VComp(None, None, None, kind="gen")
         c.alts = out
         return c
+    if name == "frozenset" and len(args) == 1 and isinstance(args[0], VSet) and getattr(args[0], "two_items", None) is not None:
+        a_, b_ = args[0].two_items
+        return VUPair(a_, b_)
+    if name in ("tuple", "list") and len(args) == 1 and isinstance(args[0], VUPair):
+        return VTuple([VNode(args[0].a), VNode(args[0].b)])
     if name in ("set", "frozenset", "list", "tuple"):
         if not args:
             s = empty_set(kind="list" if name in ("list", "tuple") else "set")
@@ -731,6 +760,18 @@ def call_builtin(ex, name, args, kwargs):
         return args[0]
     if name == "sorted":
         key = kwargs.get("key")
+        if key is not None and isinstance(key, VFunc) and key.kind == "y0" and key.target.qualname == "y0.dsl._variable_sort_key":
+            a0 = args[0]
+            if isinstance(a0, VTuple) and len(a0.items) == 2 and all(isinstance(i, VNode) for i in a0.items):
+                # stable sort of two variables by (name, subscripts): an unspecified strict weak order on variables
+                klt = z3.Function("variable_sort_key_lt", L.Node, L.Node, L.B)
+                L.add_axioms({"variable_sort_key_lt"}, [L.forall(1, lambda a: L.Not(klt(a, a))),
+                                                        L.forall(2, lambda a, b: L.Not(L.And(klt(a, b), klt(b, a))))])
+                x, y = a0.items
+                if ex.branch(klt(y.t, x.t)):
+                    return VTuple([y, x])
+                return VTuple([x, y])
+            raise OutOfSubset("sorted by _variable_sort_key of a symbolic collection")
         if key is not None:
             if not (isinstance(key, VFunc) and key.kind == "builtin" and key.target == "str"):
                 raise OutOfSubset("sorted with a key other than str")
